@@ -1,3 +1,4 @@
+import SV.Model.C01
 import SV.Model.C11
 import SV.Model.PolyOps
 /-!
@@ -8,6 +9,7 @@ open SV
 
 def dispatch (prop : String) : Option (String → String) :=
   match prop with
+  | "C01" => some C01.Driver.handle
   | "C11" => some C11.Driver.handle
   | "POLY" => some PolyOps.handle
   | _ => none
